@@ -40,12 +40,19 @@ def known_http(prog, ex, line):
     """F11 (open): fatal allocation failure inside network_connect's retry leaves the HTTP request unreleasable (2 blocks)"""
     if not vlib.known_findings("C14"):
         return None
+    if line == -1 and ex and ex[-1].get("e") == "__died__":
+        # manifestation (b): the request is cancelled after the loop reported the fatal error
+        rep = ex[-1].get("stderr", "")
+        if ("heap-use-after-free" in rep and "in network_connect_cancel" in rep and "in http_request_cancel" in rep and "in tryconnect" in rep
+                and "\nfail " in prog and "\ncancel " in prog):
+            return "F11 HTTP request cancelled after a fatal allocation failure inside network_connect's tryconnect touches the freed connection cookie"
+        return None
     if not (0 < line <= len(ex)) or ex[line - 1].get("e") != "exit" or ex[line - 1].get("live") != 2:
         return None
     if any(e.get("e") == "http_cb" for e in ex):
         return None
     for i, e in enumerate(ex):
-        if e.get("e") == "run_ret" and e.get("rc") != 0 and e.get("inj", 0) > 0 and i >= 2 and ex[i - 1].get("e") == "close" and ex[i - 2].get("e") == "connect_call":
+        if e.get("e") == "run_ret" and e.get("rc") != 0 and e.get("inj", 0) > 0 and i >= 2 and ex[i - 1].get("e") == "close" and ex[i - 2].get("e") in ("connect_call", "getsockopt"):
             return "F11 HTTP request leaked (2 allocations) after a fatal allocation failure inside network_connect's attempt on a later address"
     return None
 
